@@ -170,7 +170,7 @@ var nonCompleting = []uint16{tSYSCALL, tPATH, tCWD, tEXECVE, tSOCKADDR, 1326, 13
 var completing = []uint16{tPROCTITLE, tUSERAUTH, tLOGIN, tANOM, 1299, 1000, 2500, 1112, 65535, 0}
 
 func genStream(r *core.Rng, p *RPlan, tilt int, fired []int) []ROp {
-	nEv := r.Range(1, 12)
+	nEv := r.Range(1, core.Scale(12, true))
 	// swarm knobs for this run
 	pGap := core.Pick(r, 0, 0, 10, 25, 50)
 	if tilt == 3 {
@@ -415,7 +415,7 @@ func genTail(r *core.Rng, p *RPlan, ops []ROp, fired []int) []ROp {
 // genChaos draws operations over a tiny pool of offsets so that duplicates,
 // re-use after delivery and collisions are frequent.
 func genChaos(r *core.Rng, p *RPlan, fired []int) []ROp {
-	n := r.Range(1, 40)
+	n := r.Range(1, core.Scale(40, false))
 	pool := []uint32{0, 1, 2, 3, 4, 5}
 	if r.Chance(1, 3) {
 		pool = append(pool, spanMax, spanMax-1, spanMax-2)
